@@ -187,7 +187,19 @@ def resend_sync_harness(I):
     import C06_resend as c06
     cl = c06.harness(False, relation_only=True)(I)
     keep = ("after.stored_counter_restored", "after.next_outbound_number_restored")
-    return [("sync.resend." + n.split(".", 1)[1], c) for n, c in cl if n in keep] + [("sync.resend.runs", True)]
+    out = [("sync.resend." + n.split(".", 1)[1], c) for n, c in cl if n in keep] + [("sync.resend.runs", True)]
+    # kill points INSIDE the call ("killed at any point while ... receiving"): whatever is stored while the request is
+    # served must never be below what the object held before - a successor built from the journal would otherwise hand
+    # out numbers that were already used for other messages.  Program order of the journal operations (ghost op log):
+    # every set_seq_num the function performs stores an outbound number >= the one it started with.
+    g = I.ctx.ghost
+    pre = g.get("pre_view")
+    conn = g.get("conn")
+    if pre is not None and conn is not None:
+        for op in conn.f["_journaler"].f["ops"]:
+            if op[0] == "set_seq_num" and op[1] is not None:
+                out.append(("crash.resend.stored_counter_never_below_what_was_sent", op[1] >= pre.nout))
+    return out
 
 
 def crash_concrete(obs):
@@ -348,7 +360,9 @@ PROPERTY = Property(
         "Journaler.persist_msg / set_seq_num / create_or_load: their abstract contracts are consequences of the clauses "
         "proved on the SQL bodies in this run (tasks journal.*: C13's clauses, the refinement lemmas, C08's durability "
         "clauses); _process_resend by contract in the dispatcher task (relation proved on the real body in this run: "
-        "refinement[_process_resend]); its effect on the stored outbound counter is the task sync[process_resend]",
+        "refinement[_process_resend]); its effect on the stored outbound counter is the task sync[process_resend], "
+        "which also carries the kill points inside a served request (known finding C09-KF2: the counter is stored "
+        "rewound during the replay)",
         "Codec.encode's number choice on the real body in this run (tasks callee.*); A-HOOK, A-IO, A-LOG; inbound "
         "messages carry the session's CompIDs (header defects end in a disconnect that touches no counter: C11)",
         "A-SQL for the init.* tasks (real create_or_load over the sqlite3 contract model)",
